@@ -5,7 +5,14 @@ d, pid, name, needs, caught = sys.argv[1:6]
 dst = os.path.join("/verif/seeded", name)
 os.makedirs(dst, exist_ok=True)
 shutil.copy(os.path.join(d, "patch.verified.diff"), os.path.join(dst, "patch.diff"))
-shutil.copy(os.path.join(d, "fast-tlsh/tests/demo_%s.rs" % pid), os.path.join(dst, "demo_%s.rs" % pid))
+rs = os.path.join(d, "fast-tlsh/tests/demo_%s.rs" % pid)
+sh = os.path.join(d, "demo_%s.sh" % pid)
+if os.path.exists(rs):
+    shutil.copy(rs, os.path.join(dst, "demo_%s.rs" % pid))
+    demo = "copy demo_%s.rs to fast-tlsh/tests/ and run `cargo test --offline -p fast-tlsh --test demo_%s`" % (pid, pid)
+else:
+    shutil.copy(sh, os.path.join(dst, "demo_%s.sh" % pid))
+    demo = "run demo_%s.sh from the root of a checkout with the patch applied (exit 0 = property holds)" % pid
 if os.path.exists(os.path.join(d, "NOTES.md")):
     shutil.copy(os.path.join(d, "NOTES.md"), os.path.join(dst, "NOTES.md"))
 meta = {
@@ -13,7 +20,7 @@ meta = {
     "origin": "written by a fresh sub-agent given only the property text and its own scratch worktree",
     "needs_to_manifest": needs,
     "confirmed": "lib/verify_mutant.sh in the scratch worktree: existing suite 149 passed with the change; demo fails with the change, passes without it",
-    "demo": "copy demo_%s.rs to fast-tlsh/tests/ and run `cargo test --offline -p fast-tlsh --test demo_%s`" % (pid, pid),
+    "demo": demo,
     "run_against_checks": "lib/try_mutant.sh seeded/%s/patch.diff %s" % (name, pid),
     "caught_by": caught,
 }
